@@ -7,6 +7,7 @@ import (
 	"runtime"
 	"sort"
 	"strings"
+	"sync"
 	"sync/atomic"
 
 	"github.com/EliCDavis/polyform/modeling"
@@ -68,6 +69,10 @@ type subject struct {
 	pos   []vector3.Float64
 	salt  float64
 	input string // human description, leading with the topology / attribute kind
+	// nested use (scan-nested phases): nest(parallel) builds the callback extension for one
+	// run; guard: run the call under the does-not-return detector
+	nest  func(parallel bool) func(i int) float64
+	guard bool
 }
 
 func cp[T any](s []T) []T { return append(make([]T, 0, len(s)), s...) }
@@ -231,6 +236,20 @@ type visitLog struct {
 	dupObs   int64 // second and later visitors whose observation differs are counted via counts only
 	salt     uint32
 	yieldAnd uint32 // yield when hash&yieldAnd == 0; 0xffffffff = never
+	// nested use: the callback itself calls another (parallel) scan/modify and folds what it
+	// saw into extra[i] (slot i written by the visitor of i only)
+	nest  func(i int) float64
+	extra []float64
+}
+
+// progress counts callbacks process-wide (the does-not-return detector looks at it).
+var progress int64
+
+func (l *visitLog) ext(i int) float64 {
+	if l.extra == nil || i < 0 || i >= len(l.extra) {
+		return 0
+	}
+	return l.extra[i]
 }
 
 const noIndex = int64(math.MinInt64)
@@ -240,6 +259,10 @@ func newLog(n int, salt uint32, yieldAnd uint32) *visitLog {
 }
 
 func (l *visitLog) hit(i int, o obs) {
+	atomic.AddInt64(&progress, 1)
+	if l.nest != nil && i >= 0 && i < l.n {
+		l.extra[i] = l.nest(i)
+	}
 	k := atomic.AddInt64(&l.cursor, 1) - 1
 	if k < int64(len(l.order)) {
 		l.order[k] = int32(i)
@@ -332,7 +355,7 @@ func (s *subject) call(pool int, l *visitLog) (out modeling.Mesh, p *run.PanicIn
 				out = m.ScanFloat3AttributeParallelWithPoolSize(attr3, pool, f)
 			}
 		case kMod1:
-			f := func(i int, v float64) float64 { l.hit(i, obs{tagF1, fbits(v)}); return s.f1(i, v) }
+			f := func(i int, v float64) float64 { l.hit(i, obs{tagF1, fbits(v)}); return s.f1(i, v) + l.ext(i) }
 			switch pool {
 			case 0:
 				out = m.ModifyFloat1Attribute(attr1, f)
@@ -344,7 +367,8 @@ func (s *subject) call(pool int, l *visitLog) (out modeling.Mesh, p *run.PanicIn
 		case kMod2:
 			f := func(i int, v vector2.Float64) vector2.Float64 {
 				l.hit(i, obs{tagF2, fbits(v.X()), fbits(v.Y())})
-				return s.f2(i, v)
+				w := s.f2(i, v)
+				return vector2.New(w.X()+l.ext(i), w.Y())
 			}
 			switch pool {
 			case 0:
@@ -357,7 +381,8 @@ func (s *subject) call(pool int, l *visitLog) (out modeling.Mesh, p *run.PanicIn
 		case kMod3:
 			f := func(i int, v vector3.Float64) vector3.Float64 {
 				l.hit(i, obs{tagF3, fbits(v.X()), fbits(v.Y()), fbits(v.Z())})
-				return s.f3(i, v)
+				w := s.f3(i, v)
+				return vector3.New(w.X()+l.ext(i), w.Y(), w.Z())
 			}
 			switch pool {
 			case 0:
@@ -403,6 +428,9 @@ type reference struct {
 
 func (s *subject) runReference(res *run.Result) (*reference, bool) {
 	l := newLog(s.n, 0, 0xffffffff)
+	if s.nest != nil {
+		l.nest, l.extra = s.nest(false), make([]float64, s.n)
+	}
 	out, p := s.call(0, l)
 	rf := &reference{log: l, out: out, pan: p}
 	if p != nil {
@@ -437,8 +465,25 @@ func (s *subject) check(res *run.Result, rf *reference, pool int, salt uint32, y
 		poolDesc = fmt.Sprintf("default pool (NumCPU=%d)", runtime.NumCPU())
 	}
 	l := newLog(s.n, salt, yieldAnd)
-	out, p := s.call(pool, l)
+	if s.nest != nil {
+		l.nest, l.extra = s.nest(true), make([]float64, s.n)
+	}
 	input := s.input + ", " + poolDesc
+	var out modeling.Mesh
+	var p *run.PanicInfo
+	if s.guard {
+		var wg sync.WaitGroup
+		wg.Add(1)
+		go func() { defer wg.Done(); out, p = s.call(pool, l) }()
+		if st := waitOrStuck(&wg); st != nil {
+			res.Violate("does-not-return", site, input,
+				fmt.Sprintf("the call never returns while the sequential nesting returned at once: %d goroutine(s) with polyform frames, every one of them parked (%s) in two goroutine dumps %v apart, no callback ran in between (%d callbacks so far)\n%s",
+					st.parked, strings.Join(st.states, ", "), stuckRecheck, atomic.LoadInt64(&l.cursor), st.dump), nil)
+			return callStats{}
+		}
+	} else {
+		out, p = s.call(pool, l)
+	}
 	wit := func() any {
 		w := map[string]any{"kind": kindName[s.k], "topology": s.topo.String(), "count": s.rawN, "pool": pool}
 		if len(s.idx) <= 240 {
@@ -511,7 +556,15 @@ func (s *subject) check(res *run.Result, rf *reference, pool int, salt uint32, y
 		}
 		res.Violate(cls, site, input, "returned mesh differs from the sequential counterpart's (sequential -> parallel): "+d, wit())
 	}
-	if s.k >= kMod1 {
+	if rf.log.extra != nil {
+		for i := range rf.log.extra {
+			if l.counts[i] == 1 && fbits(l.extra[i]) != fbits(rf.log.extra[i]) {
+				res.Violate("nested-result", site, input, fmt.Sprintf("what the callback of element %d obtained from its nested call differs from the sequential nesting: %v vs %v", i, l.extra[i], rf.log.extra[i]), wit())
+				break
+			}
+		}
+	}
+	if s.k >= kMod1 && s.nest == nil {
 		res.Count("modify_outputs_compared", 1)
 		if d := s.checkModified(out); d != "" {
 			res.Violate("modify-output", site, input, d, wit())
